@@ -1,5 +1,5 @@
 \* the design as intended (ManifestDelete validates): all entry points, full name space
-CONSTANTS TitleClean = "rooted" ExtractGuard = "reroot" LinkPolicy = "skip" DeleteValidates = TRUE MaxFull = 3 MaxCore = 5
+CONSTANTS TitleClean = "rooted" ExtractGuard = "reroot" Whiteout = "none" LinkPolicy = "skip" DeleteValidates = TRUE MaxFull = 3 MaxCore = 5
   Eps = {"art", "tar", "lnk", "imp", "lay"}
 SPECIFICATION Spec
 INVARIANTS Containment Agree
